@@ -80,3 +80,17 @@ Section Crit.
   Definition angerrofpsi (a b fl : T) : meth (T * T) ev4 :=
     MPair (fun s e => angerr_crit a b fl (fst s) (snd s) (e_ra e) (e_dec e) (e_err e)).
 End Crit.
+
+(* ---- extension: utils/coords.angular_separation with its optional psi_floor argument
+   (`if psi_floor is not None: psi = np.where(psi < psi_floor, psi_floor, psi)`) *)
+Section AngsepFloor.
+  Context {T : Type} (N : Num T).
+  Definition angsep_floor (ra1 dec1 ra2 dec2 : T) (psi_floor : option T) : T :=
+    let psi := angsep N ra1 dec1 ra2 dec2 in
+    if as_has_floor (match psi_floor with None => None | Some _ => Some 0%Z end)
+    then match psi_floor with Some f => as_floor N psi f | None => psi end
+    else psi.
+  (* the vectorised call: one value per (ra1, dec1, ra2, dec2) row *)
+  Definition angsep_floor_list (rows : list (T * T * T * T)) (psi_floor : option T) : list T :=
+    map (fun r => angsep_floor (fst (fst (fst r))) (snd (fst (fst r))) (snd (fst r)) (snd r) psi_floor) rows.
+End AngsepFloor.
